@@ -45,6 +45,7 @@ func endsPath(n ast.Node) bool {
 }
 
 func (k *kernel) assigned(v *variable) {
+	v.everAssigned = true
 	for _, f := range k.frames {
 		if v.depth <= f.depth && !f.seen[v] {
 			f.seen[v] = true
@@ -61,13 +62,50 @@ func (k *kernel) rhs(e ast.Expr) (string, vkind) {
 		return s, vFloat
 	case 'p':
 		return "decide (" + s + ")", vBool
+	case 'i':
+		return s, vIntVar
+	case 'l':
+		return s, vSlice
 	}
 	return s, vBool
 }
 
+// the kinds of variables that hold a value of the subset
+func valueKind(kind vkind) bool {
+	return kind == vFloat || kind == vBool || kind == vIntVar || kind == vSlice || kind == vIdxVec
+}
+
+// `some v` where the function being rendered may panic
+func (k *kernel) wrap(val string) string {
+	if !k.partial {
+		return val
+	}
+	return "some " + paren(val, map[bool]int{true: pAtom, false: 0}[closedParen(val)], pAtom)
+}
+
+// the text is one parenthesised group
+func closedParen(s string) bool {
+	if !strings.HasPrefix(s, "(") {
+		return false
+	}
+	depth := 0
+	for i, c := range s {
+		switch c {
+		case '(':
+			depth++
+		case ')':
+			depth--
+			if depth == 0 {
+				return i == len(s)-1
+			}
+		}
+	}
+	return false
+}
+
 func (k *kernel) define(ind int, id *ast.Ident, s string, kind vkind) *variable {
 	v := k.declare(id, kind)
-	if !k.inLoop && kind == vFloat {
+	if !k.inLoop && k.mode == mKernel && (kind == vFloat || kind == vIntVar || kind == vSlice) {
 		k.preLocals = append(k.preLocals, v)
 	}
 	k.line(ind, "let %s : %s := %s", v.lean, v.typ(), s)
@@ -77,18 +115,23 @@ func (k *kernel) define(ind int, id *ast.Ident, s string, kind vkind) *variable 
 // the variable an assignment writes, with the checks on what may be written where
 func (k *kernel) target(id *ast.Ident, n ast.Node) *variable {
 	v := k.lookup(id.Name)
-	if v == nil || (v.kind != vFloat && v.kind != vBool) {
+	if v == nil || !valueKind(v.kind) {
 		k.fail(n, "assignment to %s, which is not a float64 or bool variable", id.Name)
 	}
-	if k.mode == mKernel {
+	if v.capturedAt {
+		k.fail(n, "assignment to %s after a function literal has captured it", v.name)
+	}
+	if k.mode == mKernel && !k.inFinal {
 		if k.inLoop && !v.inLoop && !v.state {
-			if v.kind == vFloat && !v.param {
+			if valueKind(v.kind) && !v.param {
 				panic(needHidden{v.declPos}) // retried with this variable as a hidden state
 			}
 			k.fail(n, "loop-carried variable %s is not returned (hidden state)", v.name)
 		}
-		if !k.inLoop && v.param && !v.state {
-			k.fail(n, "assignment to parameter %s before the loop", v.name)
+		if !k.inLoop && v.param && !v.state && !v.reassigned {
+			// a parameter assigned before the loop: from here on a pre-loop local (step receives its value on loop entry)
+			v.reassigned = true
+			k.preLocals = append(k.preLocals, v)
 		}
 	}
 	return v
@@ -100,18 +143,37 @@ func (k *kernel) assign(ind int, lhs ast.Expr, tok token.Token, rhs ast.Expr, n 
 		k.fail(n, "assignment to %T", lhs)
 	}
 	if tok == token.DEFINE {
+		if lit, ok := rhs.(*ast.FuncLit); ok {
+			k.closure(id, lit)
+			return
+		}
+		if c, ok := k.constEnv().eval(rhs); ok && !c.typed { // `x := 0`: an untyped integer constant declares an int
+			if lit, isInt := intLit(c.v); isInt {
+				k.define(ind, id, lit, vIntVar)
+				return
+			}
+		}
 		s, kind := k.rhs(rhs)
 		k.define(ind, id, s, kind)
 		return
 	}
 	v := k.target(id, n)
 	var s string
-	if tok == token.ASSIGN {
+	if tok == token.ASSIGN && v.kind == vIntVar {
+		s, _ = k.intExpr(rhs)
+	} else if tok == token.ASSIGN {
 		var kind vkind
 		s, kind = k.rhs(rhs)
 		if kind != v.kind {
-			k.fail(n, "assignment of a %s to %s", map[bool]string{true: "bool", false: "float64"}[kind == vBool], v.name)
+			k.fail(n, "assignment of a %s to %s", map[vkind]string{vBool: "bool", vFloat: "float64", vIntVar: "int", vSlice: "[]float64"}[kind], v.name)
 		}
+	} else if v.kind == vIntVar {
+		op := map[token.Token]token.Token{token.ADD_ASSIGN: token.ADD, token.SUB_ASSIGN: token.SUB, token.MUL_ASSIGN: token.MUL,
+			token.QUO_ASSIGN: token.QUO, token.REM_ASSIGN: token.REM}[tok]
+		if op == token.ILLEGAL {
+			k.fail(n, "assignment operator %s", tok)
+		}
+		s, _ = k.intExpr(&ast.BinaryExpr{X: id, OpPos: n.Pos(), Op: op, Y: rhs})
 	} else {
 		op := map[token.Token]token.Token{token.ADD_ASSIGN: token.ADD, token.SUB_ASSIGN: token.SUB, token.MUL_ASSIGN: token.MUL,
 			token.QUO_ASSIGN: token.QUO}[tok]
@@ -130,13 +192,20 @@ func (k *kernel) multiAssign(ind int, s *ast.AssignStmt) {
 	if !ok || (s.Tok != token.DEFINE && s.Tok != token.ASSIGN) {
 		k.fail(s, "multiple assignment")
 	}
-	text, nout, ok := k.callFn(call)
+	text, outs, ok := k.callTyped(call)
+	nout := len(outs)
 	if !ok || nout != len(s.Lhs) {
 		k.fail(s, "multiple assignment other than from a helper function with as many results")
 	}
 	k.ncall++
 	tmp := k.fresh(fmt.Sprintf("call%d", k.ncall))
-	k.line(ind, "let %s : %s := %s", tmp, tupleType(nout), text)
+	k.line(ind, "let %s : %s := %s", tmp, tupleTypeOf(outs), text)
+	k.bindResults(ind, s, tmp, outs)
+}
+
+// `a, b := tmp` / `a, b = tmp` for the results of a call held in the tuple `tmp`
+func (k *kernel) bindResults(ind int, s *ast.AssignStmt, tmp string, outs []string) {
+	nout := len(outs)
 	for i, l := range s.Lhs {
 		id, ok := l.(*ast.Ident)
 		if !ok {
@@ -147,15 +216,15 @@ func (k *kernel) multiAssign(ind int, s *ast.AssignStmt) {
 		}
 		val := tmp + proj(i, nout)
 		if _, here := k.sc.vars[id.Name]; s.Tok == token.DEFINE && !here {
-			k.define(ind, id, val, vFloat)
+			k.define(ind, id, val, kindOfType(outs[i]))
 			continue
 		}
 		v := k.target(id, s)
-		if v.kind != vFloat {
-			k.fail(s, "assignment of a float64 to %s", v.name)
+		if v.typ() != outs[i] {
+			k.fail(s, "assignment of a %s to %s", outs[i], v.name)
 		}
 		k.assigned(v)
-		k.line(ind, "let %s : α := %s", v.lean, val)
+		k.line(ind, "let %s : %s := %s", v.lean, v.typ(), val)
 	}
 }
 
@@ -174,6 +243,10 @@ func (k *kernel) localDecl(ind int, d *ast.DeclStmt) {
 			case isIdent(vs.Type, "float64"):
 			case isIdent(vs.Type, "bool"):
 				kind = vBool
+			case isIdent(vs.Type, "int"):
+				kind = vIntVar
+			case k.leanType(vs.Type, k.imp, false) == "List α":
+				kind = vSlice
 			default:
 				k.fail(vs, "variable declaration of a type other than float64 / bool")
 			}
@@ -185,10 +258,17 @@ func (k *kernel) localDecl(ind int, d *ast.DeclStmt) {
 					if vs.Type == nil {
 						k.fail(vs, "var declaration without type and value")
 					}
-					k.define(ind, n, map[vkind]string{vFloat: "Num.zero", vBool: "false"}[kind], kind)
+					k.define(ind, n, map[vkind]string{vFloat: "Num.zero", vBool: "false", vIntVar: "0", vSlice: "[]"}[kind], kind)
 					continue
 				}
-				val, vk := k.rhs(vs.Values[i])
+				var val string
+				var vk vkind
+				if kind == vIntVar {
+					val, _ = k.intExpr(vs.Values[i])
+					vk = vIntVar
+				} else {
+					val, vk = k.rhs(vs.Values[i])
+				}
 				if vs.Type != nil && vk != kind {
 					k.fail(vs, "var declaration whose value is not of the declared type")
 				}
@@ -222,6 +302,12 @@ func (k *kernel) localDecl(ind int, d *ast.DeclStmt) {
 
 func (k *kernel) stmts(list []ast.Stmt, ind int, rest func(ind int)) {
 	for i, s := range list {
+		if k.partial {
+			if n := k.hoistStmt(ind, s); n > 0 { // calls that may panic inside an expression were bound: the rest goes deeper
+				k.stmts(list[i:], ind+n, rest)
+				return
+			}
+		}
 		switch s := s.(type) {
 		case *ast.EmptyStmt:
 		case *ast.DeclStmt:
@@ -231,12 +317,28 @@ func (k *kernel) stmts(list []ast.Stmt, ind int, rest func(ind int)) {
 				k.partialCall(ind, s, list[i+1:], rest)
 				return
 			}
+			if len(s.Rhs) == 1 {
+				if call, ok := s.Rhs[0].(*ast.CallExpr); ok && k.callMayPanic(call) {
+					k.bindPartial(ind, s, call, list[i+1:], rest)
+					return
+				}
+				if ix, ok := s.Rhs[0].(*ast.IndexExpr); ok && len(s.Lhs) == 1 && k.tableRead(ix) != nil {
+					k.bindTable(ind, s, ix, list[i+1:], rest)
+					return
+				}
+			}
 			if len(s.Lhs) > 1 && len(s.Rhs) == 1 {
 				k.multiAssign(ind, s)
 				continue
 			}
 			if len(s.Lhs) != 1 || len(s.Rhs) != 1 {
 				k.fail(s, "multiple assignment")
+			}
+			if id, ok := s.Lhs[0].(*ast.Ident); ok && s.Tok == token.DEFINE && k.indexVector(ind, id, s.Rhs[0]) {
+				continue
+			}
+			if ix, ok := s.Lhs[0].(*ast.IndexExpr); ok && k.indexAssign(ind, s, ix) {
+				continue
 			}
 			if ix, ok := s.Lhs[0].(*ast.IndexExpr); ok { // idx[0] = i
 				x, _ := ix.X.(*ast.Ident)
@@ -267,13 +369,19 @@ func (k *kernel) stmts(list []ast.Stmt, ind int, rest func(ind int)) {
 			if sel != nil {
 				x, _ = sel.X.(*ast.Ident)
 			}
-			if call != nil && isIdent(call.Fun, "panic") && k.lookup("panic") == nil && k.mode == mKernel && k.inLoop {
-				if len(k.frames) > 0 || !k.partial {
+			if call != nil && isIdent(call.Fun, "panic") && k.lookup("panic") == nil && (k.mode != mKernel || k.inLoop) {
+				if len(k.frames) > k.frameBase || !k.partial {
 					k.fail(s, "panic inside a branch that is merged")
 				}
 				k.countLeaf()
 				k.line(ind, "none")
 				return
+			}
+			if x != nil && call != nil {
+				if v := k.lookup(x.Name); v != nil && v.kind == vList {
+					k.listStmt(ind, s, call, sel, v)
+					continue
+				}
 			}
 			if x != nil && k.lookup(x.Name) == nil && k.imp[x.Name] == "fmt" && strings.HasPrefix(sel.Sel.Name, "Print") {
 				rel, line := k.relPos(s)
@@ -308,10 +416,27 @@ func (k *kernel) stmts(list []ast.Stmt, ind int, rest func(ind int)) {
 			k.leaf(ind)
 			return
 		case *ast.ForStmt:
-			k.boundedFor(s, ind)
+			switch {
+			case k.mode == mHelper && k.clo == nil && k.constBounded(s):
+				k.boundedFor(s, ind)
+			case s.Init == nil && s.Post == nil:
+				k.whileFor(s, ind)
+			default:
+				k.rangeFor(s, ind)
+			}
+			if k.deeper { // the loop may panic: the rest of the block is the `some` arm of its match
+				k.deeper = false
+				k.stmts(list[i+1:], ind+1, rest)
+				return
+			}
+		case *ast.RangeStmt:
+			k.rangeOver(s, ind)
 		case *ast.ReturnStmt:
-			if k.mode != mHelper {
+			if k.mode != mHelper && k.mode != mWhole {
 				k.fail(s, "return statement inside the loop or a merged branch")
+			}
+			if k.loopNest > 0 {
+				k.fail(s, "return statement inside a loop")
 			}
 			k.leafReturn(ind, s)
 			return
@@ -337,7 +462,7 @@ func (k *kernel) stmts(list []ast.Stmt, ind int, rest func(ind int)) {
 				}
 				k.elseBranch(s.Else, ind, after)
 				return
-			case endsPath(s): // some path ends the step: the rest of the body is rendered inside each branch
+			case endsPath(s) || k.nodePartial(s): // some path ends the step: the rest of the body is rendered inside each branch
 				if len(k.frames) > k.frameBase {
 					k.fail(s, "continue / break / return inside a branch that is merged")
 				}
@@ -615,7 +740,7 @@ func (k *kernel) leaf(ind int) {
 // `v, err := pkg.F(args…)` of a module function with results (float64, error) that takes whole series
 func (k *kernel) isPartialCall(s *ast.AssignStmt) bool {
 	call, ok := s.Rhs[0].(*ast.CallExpr)
-	if !ok || s.Tok != token.DEFINE || k.mode != mKernel || !k.inLoop {
+	if !ok || s.Tok != token.DEFINE || !k.partial || (k.mode == mKernel && k.clo == nil && !k.inLoop) {
 		return false
 	}
 	return k.hasErrResult(k.resolveFunc(call.Fun))
@@ -645,7 +770,7 @@ func (k *kernel) partialCall(ind int, s *ast.AssignStmt, following []ast.Stmt, r
 	r := k.resolveFunc(call.Fun)
 	vid, _ := s.Lhs[0].(*ast.Ident)
 	eid, _ := s.Lhs[1].(*ast.Ident)
-	if vid == nil || eid == nil || vid.Name == "_" || eid.Name == "_" || len(k.frames) > 0 || !k.partial {
+	if vid == nil || eid == nil || vid.Name == "_" || eid.Name == "_" || len(k.frames) > k.frameBase || !k.partial {
 		k.fail(s, "call of %s other than `v, err := …` at the top level of the loop body", r.fd.Name.Name)
 	}
 	okNext := false
@@ -666,8 +791,16 @@ func (k *kernel) partialCall(ind int, s *ast.AssignStmt, following []ast.Stmt, r
 	}
 	var args []string
 	var kinds []byte
+	lists := false
 	for _, a := range call.Args {
 		if id, ok := a.(*ast.Ident); ok {
+			if v := k.lookup(id.Name); v != nil && v.kind == vList { // a table series (a List α)
+				k.use(v)
+				args = append(args, v.lean)
+				kinds = append(kinds, 'l')
+				lists = true
+				continue
+			}
 			if v := k.lookup(id.Name); v != nil && v.kind == vSeries {
 				isTable := false
 				for _, t := range k.tables {
@@ -694,6 +827,13 @@ func (k *kernel) partialCall(ind int, s *ast.AssignStmt, following []ast.Stmt, r
 	}
 	if af == nil {
 		af = &abstractFn{key: key, lean: k.fresh(r.fd.Name.Name), kinds: kinds}
+		if lists {
+			for _, c := range kinds {
+				af.typ += map[byte]string{'f': "α → ", 'l': "List α → ", 's': "List α → "}[c]
+			}
+			af.typ += "Option α"
+			af.desc = "results (float64, error), takes whole series (lists); none = the error is non-nil, on which the code panics"
+		}
 		pos := k.w.fset.Position(r.fd.Pos())
 		af.rel, _ = filepath.Rel(k.w.repo, pos.Filename)
 		af.line = pos.Line
@@ -701,6 +841,7 @@ func (k *kernel) partialCall(ind int, s *ast.AssignStmt, following []ast.Stmt, r
 	} else if string(af.kinds) != string(kinds) {
 		k.fail(s, "calls of %s with different kinds of arguments", r.fd.Name.Name)
 	}
+	k.noteAbs(af)
 	k.line(ind, "match %s %s with", af.lean, strings.Join(args, " "))
 	k.line(ind, "| none => none")
 	k.countLeaf()
@@ -712,8 +853,8 @@ func (k *kernel) partialCall(ind int, s *ast.AssignStmt, following []ast.Stmt, r
 
 func (k *kernel) countLeaf() {
 	k.leaves++
-	if k.leaves > 64 {
-		k.fail(k.fn, "more than 64 paths through the body")
+	if k.leaves > 200 {
+		k.fail(k.fn, "more than 200 paths through the body")
 	}
 }
 
@@ -723,22 +864,67 @@ func (k *kernel) leafReturn(ind int, r *ast.ReturnStmt) {
 		panic("internal: return inside a merge")
 	}
 	k.countLeaf()
+	if k.mode == mWhole {
+		k.wholeLeaf(ind, r)
+		return
+	}
 	if len(r.Results) == 0 {
 		if len(k.results) != k.nres || k.nres == 0 {
 			k.fail(r, "return without values")
 		}
-		k.line(ind, "%s", tupleOf(k.results))
+		k.line(ind, "%s", k.wrap(tupleOf(k.results)))
 		return
+	}
+	if len(r.Results) == 1 {
+		if call, ok := r.Results[0].(*ast.CallExpr); ok && k.callMayPanic(call) { // return f(…) of a function that may panic
+			text, outs := k.partialCallText(call)
+			if tupleTypeOf(outs) != tupleTypeOf(k.resTypes) || !k.partial {
+				k.fail(r, "return of a call whose results are not those of the function")
+			}
+			k.line(ind, "%s", text)
+			return
+		}
+		if ix, ok := r.Results[0].(*ast.IndexExpr); ok && k.tableRead(ix) != nil && k.nres == 1 && k.partial { // return T[i]
+			k.line(ind, "%s", k.tableRead(ix)())
+			return
+		}
+		if call, ok := r.Results[0].(*ast.CallExpr); ok && k.nres > 1 { // return f(…) with several results
+			text, outs, ok := k.callTyped(call)
+			if !ok || tupleTypeOf(outs) != tupleTypeOf(k.resTypes) {
+				k.fail(r, "return of a call whose results are not those of the function")
+			}
+			k.line(ind, "%s", k.wrap(paren(text, pApp, pAtom)))
+			return
+		}
 	}
 	if len(r.Results) != k.nres {
 		k.fail(r, "return of %d expressions for %d results", len(r.Results), k.nres)
 	}
 	var vals []string
-	for _, e := range r.Results {
-		s, _ := k.num(e)
-		vals = append(vals, s)
+	for i, e := range r.Results {
+		vals = append(vals, k.valueOf(e, k.resTypes[i]))
 	}
-	k.line(ind, "%s", tupleOfNames(vals))
+	k.line(ind, "%s", k.wrap(tupleOfNames(vals)))
+}
+
+// an expression of the given Lean type
+func (k *kernel) valueOf(e ast.Expr, typ string) string {
+	switch typ {
+	case "Int":
+		s, _ := k.intExpr(e)
+		return s
+	case "Bool":
+		s, _ := k.boolean(e)
+		return s
+	case "List α":
+		s, _, kind := k.expr(e)
+		if kind != 'l' {
+			k.fail(e, "expression that is not a []float64 where one is expected")
+		}
+		return s
+	}
+	s, _ := k.num(e)
+	return s
 }
 
 // ---- a helper function: float64 parameters ↦ float64 results
@@ -750,32 +936,42 @@ func (k *kernel) translateHelper(h *helperDef) string {
 	k.liveIn = map[*variable]bool{}
 	k.isSet, k.always, k.outVar = map[*variable]bool{}, map[*variable]bool{}, map[*variable]*variable{}
 	k.firstOf = map[*variable]*variable{}
+	k.partial = k.nodePartial(fn.Body)
+	h.partial = k.partial
 	var params []*variable
+	pi := 0
 	for _, fld := range fn.Type.Params.List {
 		if len(fld.Names) == 0 {
 			k.fail(fld, "unnamed parameter")
 		}
 		for _, n := range fld.Names {
+			kind := kindOfType(h.ins[pi])
+			pi++
 			if n.Name == "_" {
-				params = append(params, &variable{kind: vFloat, name: "_", lean: k.fresh("unused")})
+				params = append(params, &variable{kind: kind, name: "_", lean: k.fresh("unused")})
 				continue
 			}
-			v := k.declare(n, vFloat)
+			v := k.declare(n, kind)
 			v.param = true
 			params = append(params, v)
 		}
 	}
 	var body strings.Builder
 	k.out = &body
+	ri := 0
 	for _, fld := range fn.Type.Results.List {
 		if len(fld.Names) == 0 {
 			k.nres++
+			k.resTypes = append(k.resTypes, h.outs[ri])
+			ri++
 		}
 		for _, n := range fld.Names {
 			k.nres++
-			v := k.declare(n, vFloat)
+			k.resTypes = append(k.resTypes, h.outs[ri])
+			v := k.declare(n, kindOfType(h.outs[ri]))
 			k.results = append(k.results, v)
-			k.line(1, "let %s : α := Num.zero", v.lean)
+			k.line(1, "let %s : %s := %s", v.lean, h.outs[ri], zeroOf(h.outs[ri]))
+			ri++
 		}
 	}
 	k.stmts(fn.Body.List, 1, func(ind int) {
@@ -783,18 +979,36 @@ func (k *kernel) translateHelper(h *helperDef) string {
 			k.fail(fn, "missing return")
 		}
 		k.countLeaf()
-		k.line(ind, "%s", tupleOf(k.results))
+		k.line(ind, "%s", k.wrap(tupleOf(k.results)))
 	})
-	names := []string{}
-	for _, v := range params {
-		names = append(names, v.lean)
+	// an int parameter the body does not use is not a parameter of the definition (the time-step counter of a kernel)
+	var kept []*variable
+	h.drop = make([]bool, len(params))
+	for i, v := range params {
+		if v.kind == vIntVar && !v.used {
+			h.drop[i] = true
+			continue
+		}
+		kept = append(kept, v)
 	}
+	h.absFns = k.absCalls
 	var b strings.Builder
-	fmt.Fprintf(&b, "/-- %s:%d  func %s -/\n", h.rel, h.line, fn.Name.Name)
-	bind := ""
-	if len(names) > 0 {
-		bind = " (" + strings.Join(names, " ") + " : α)"
+	fmt.Fprintf(&b, "/-- %s:%d  func %s", h.rel, h.line, fn.Name.Name)
+	if k.partial {
+		b.WriteString(" (may panic: none)")
 	}
-	fmt.Fprintf(&b, "def %s {α : Type} [Num α]%s : %s :=\n%s", h.lean, bind, tupleType(k.nres), body.String())
+	for _, a := range h.absFns {
+		fmt.Fprintf(&b, "; %s (%s:%d) is NOT translated: an argument", a.lean, a.rel, a.line)
+	}
+	b.WriteString(" -/\n")
+	abs := ""
+	for _, a := range h.absFns {
+		abs += fmt.Sprintf(" (%s : %s)", a.lean, a.typ)
+	}
+	ret := tupleTypeOf(h.outs)
+	if k.partial {
+		ret = "Option " + paren(ret, map[bool]int{true: pAtom, false: 0}[len(h.outs) == 1], pAtom)
+	}
+	fmt.Fprintf(&b, "def %s {α : Type} [Num α]%s%s : %s :=\n%s", h.lean, abs, binderVs(kept), ret, body.String())
 	return b.String()
 }
